@@ -8,7 +8,8 @@ AREA = "c02"
 LEAN_PROPS = "Litep2pVerif.Props.C02"
 THEOREMS = ["term_model_laws", "real_params_ok", "write_total_old_constant_witness", "write_total", "write_stream_eq",
             "read_no_oob", "read_stream_eq", "tamper_detected", "tamper_cases", "tamper_instances",
-            "write_read_roundtrip", "flush_delivers_everything_accepted", "close_delivers_everything_accepted"]
+            "write_read_roundtrip", "flush_delivers_everything_accepted", "close_delivers_everything_accepted",
+            "write_pending_registered"]
 CONSTS = ["MAX_NOISE_MSG_LEN", "NOISE_EXTRA_ENCRYPT_SPACE", "MAX_READ_AHEAD_FACTOR", "MAX_WRITE_BUFFER_SIZE",
           "SNOW_MAXMSGLEN", "SNOW_TAGLEN"]
 MANIFEST = {
